@@ -362,7 +362,13 @@ let read_traces ic : trace list =
        let line = input_line ic in
        match words line with
        | "case" :: id :: _ -> cur := Some { tid_ = id; labels = []; events = []; flags = [] }
-       | "L" :: rest -> (match !cur with Some c -> cur := Some { c with labels = label_parse rest :: c.labels } | None -> ())
+       | "L" :: rest ->
+           (* an atomic operation the model does not have (fetch_sub, compare_exchange, ...) cannot be a label: it is
+              flagged and left out, the events are still judged *)
+           (match !cur with
+            | Some c -> (try cur := Some { c with labels = label_parse rest :: c.labels }
+                         with Failure _ -> cur := Some { c with flags = ("unparsed-label:" ^ String.concat "_" rest) :: c.flags })
+            | None -> ())
        | ["E"; t; "call"; o] -> (match !cur with Some c -> cur := Some { c with events = ECall (nat_of_int (int_of_string t), op_parse o) :: c.events } | None -> ())
        | ["E"; t; "ret"; "hang"; "|"; _] -> (match !cur with Some c -> cur := Some { c with flags = ("hang:" ^ t) :: c.flags } | None -> ())
        | ["E"; t; "ret"; r; "|"; d] ->
